@@ -109,3 +109,6 @@ func (r *Rand) Perm(n int) []int {
 // Fork derives an independent generator (used to decouple sub-generators so that adding a draw to one
 // does not shift the others).
 func (r *Rand) Fork() *Rand { return NewRand(r.Uint64()) }
+
+// Pick2 returns one of the ints.
+func (r *Rand) Pick2(vals ...int) int { return vals[r.Intn(len(vals))] }
